@@ -162,6 +162,28 @@ def leanchecker(lean_mods):
     return {'ok': ok, 'modules': len(mods), 'seconds': round(time.time() - t0, 1), 'detail': (r.stdout + r.stderr)[-800:] if not ok else ''}
 
 
+def anchor_ties(pid):
+    """(translators, property modules) tying the files named in the property's anchors to the hand models"""
+    try:
+        ties = json.load(open(os.path.join(VERIF, 'tools', 'ties.json')))
+        files = []
+        for line in open(os.path.join(VERIF, 'properties.jsonl')):
+            d = json.loads(line)
+            if d['id'] == pid:
+                files = d['anchors']['files']
+    except Exception:
+        return [], []
+    trs, mods = [], []
+    for f in files:
+        for t, ms in ties.get(f, []):
+            if os.path.exists(os.path.join(VERIF, 'tools', t + '.py')) and t not in trs:
+                trs.append(t)
+            for m in ms:
+                if os.path.exists(module_path(m)) and m not in mods:
+                    mods.append(m)
+    return trs, mods
+
+
 def main():
     ap = argparse.ArgumentParser()
     ap.add_argument('pid')
@@ -181,13 +203,21 @@ def main():
         return 2
     lean_mod = mod.LEAN_MODULE
     lean_mods = [lean_mod] + list(getattr(mod, 'LEAN_EXTRA', []))     # further property files (Cxx B, C, ...) of the same property
+    # translator ties of every source file the property is anchored in (tools/ties.json): their gen_* theorems are obligations too
+    tie_translators, tie_mods = anchor_ties(pid)
+    for m in tie_mods:
+        if m not in lean_mods:
+            lean_mods.append(m)
     exe_name = 'pgmgen' if getattr(mod, 'NEEDS_GENERATED', False) else 'pgmdriver'
     exe_path = common.DRIVER_GEN if exe_name == 'pgmgen' else common.DRIVER
     broken = []           # broken obligations (names / descriptions)
     thms, discharged = [], []
     try:
         # 1. regenerate
-        translators = getattr(mod, 'TRANSLATORS', ('py2lean', 'py2flow') if getattr(mod, 'NEEDS_GENERATED', False) else ())
+        translators = list(getattr(mod, 'TRANSLATORS', ('py2lean', 'py2flow') if getattr(mod, 'NEEDS_GENERATED', False) else ()))
+        for t in tie_translators:
+            if t not in translators:
+                translators.append(t)
         if translators:
             ok, out = regenerate(res, translators)
             if not ok:
